@@ -1,3 +1,54 @@
+//! Specification self-check: evaluates sw-composite's public per-pixel primitives on argument
+//! tuples so that TLC can compare them with their transcription in Pixel.tla.  A mismatch is a
+//! defect of the specification (tool error), never a verdict about raqote.
+use crate::util::*;
 use serde_json::{json, Value};
-pub fn run(sc: &Value) -> Value { json!({"id": sc["id"], "outcome": "unimplemented"}) }
-pub fn drive(_seed: u64, _n: usize) -> Vec<Value> { Vec::new() }
+use sw_composite::*;
+
+fn guarded(f: impl FnOnce() -> u32 + std::panic::UnwindSafe) -> Value {
+    match std::panic::catch_unwind(f) {
+        Ok(v) => json!({"ok": true, "v": px(v)}),
+        Err(_) => json!({"ok": false, "v": [0, 0, 0, 0]}),
+    }
+}
+
+pub fn run(sc: &Value) -> Value {
+    let mode = sc["mode"].as_str().unwrap().to_string();
+    let s = unpx(&sc["s"]);
+    let d = unpx(&sc["d"]);
+    let cov = sc["cov"].as_u64().unwrap() as u32;
+    let clip = sc["clip"].as_u64().unwrap() as u32;
+    let t = sc["t"].as_u64().unwrap() as u32;
+    let m2 = mode.clone();
+    json!({
+        "id": sc["id"], "fam": "selfcheck", "mode": mode, "s": sc["s"], "d": sc["d"], "cov": cov, "clip": clip, "t": t,
+        "blend": guarded(move || sw_blend(&m2, s, d)),
+        "over": guarded(move || over(s, d)),
+        "over_in": guarded(move || over_in(s, d, cov)),
+        "over_in_in": guarded(move || over_in_in(s, d, cov, clip)),
+        "lerp": guarded(move || lerp(s, d, t)),
+        "alpha_mul": guarded(move || alpha_mul(s, t)),
+        "alpha_lerp": guarded(move || alpha_lerp(s, d, cov, clip)),
+        "muldiv255": muldiv255(cov, clip),
+        "div255": div255(cov * clip),
+        "premul_in": (s >> 24) >= ((s >> 16) & 255) && (s >> 24) >= ((s >> 8) & 255) && (s >> 24) >= (s & 255)
+            && (d >> 24) >= ((d >> 16) & 255) && (d >> 24) >= ((d >> 8) & 255) && (d >> 24) >= (d & 255),
+    })
+}
+
+pub fn drive(seed: u64, n: usize) -> Vec<Value> {
+    let mut rng = Rng::new(seed ^ 0x5e1f);
+    let mut out = Vec::new();
+    let bytes = [0u32, 1, 2, 63, 64, 127, 128, 129, 200, 253, 254, 255];
+    for i in 0..n {
+        let mode = MODES[(i + rng.range(0, 27) as usize) % 28];
+        let s = rng.premul();
+        let d = rng.premul();
+        let cov = if rng.chance(1, 2) { *rng.pick(&bytes) } else { rng.range(0, 255) as u32 };
+        let clip = if rng.chance(1, 2) { *rng.pick(&bytes) } else { rng.range(0, 255) as u32 };
+        let t = rng.range(0, 256) as u32;
+        out.push(json!({"id": format!("self-{}-{}", seed, i), "fam": "selfcheck", "mode": mode,
+                         "s": px(s), "d": px(d), "cov": cov, "clip": clip, "t": t}));
+    }
+    out
+}
